@@ -130,3 +130,14 @@ impl RemoteClient {
         }
     }
 }
+
+#[cfg(uflow_verif)]
+impl RemoteClient {
+    /// The limits negotiated by the handshake, as this end holds them (`None` unless the connection is active).
+    pub fn verif_limits(&self) -> Option<crate::half_connection::VerifLimits> {
+        match self.state {
+            State::Active(ref state) => Some(state.half_connection.verif_limits()),
+            _ => None,
+        }
+    }
+}
